@@ -70,6 +70,29 @@ impl Zeroize for Wide {
     }
 }
 
+thread_local! { static ZEROIZE_CALLS: std::cell::Cell<u64> = const { std::cell::Cell::new(0) }; }
+/// zeroize() wipes the secret and keeps the id (what `#[zeroize(skip)]` generates): the zeroized value differs per element;
+/// the impl also counts its calls
+#[derive(Clone, Copy, Debug, PartialEq)]
+pub struct Keep {
+    id: u32,
+    secret: u32,
+}
+impl Zeroize for Keep {
+    fn zeroize(&mut self) {
+        ZEROIZE_CALLS.with(|c| c.set(c.get() + 1));
+        self.secret.zeroize();
+    }
+}
+/// one byte whose cleared marker is not 0x00
+#[derive(Clone, Copy, Debug, PartialEq)]
+pub struct Marker(u8);
+impl Zeroize for Marker {
+    fn zeroize(&mut self) {
+        self.0 = 0xA5;
+    }
+}
+
 #[derive(Clone, Copy, Debug, Serialize, Deserialize, PartialEq, Eq, Hash)]
 pub enum Kind {
     U8,
@@ -87,6 +110,12 @@ pub enum Kind {
     Arr24,
     U128,
     U16,
+    /// per-element zeroized value (an id field is kept), zeroize calls counted
+    Keep,
+    /// one-byte types whose zeroized byte is not 0x00
+    OptBool,
+    NonZeroU8,
+    Marker,
 }
 
 #[derive(Clone, Copy, Debug, Serialize, Deserialize, PartialEq, Eq, Hash)]
@@ -112,6 +141,11 @@ macro_rules! lens {
 }
 
 fn zeroize_case<T: Zeroize + Clone + PartialEq + Debug, N: ArrayLength>(prior: impl Fn(u64) -> T, zeroed: T, seed: u64) -> Result<(), String> {
+    zeroize_case_with::<T, N>(prior, move |_| zeroed.clone(), seed)
+}
+
+/// the element-wise reference: what each prior element looks like after its own `zeroize()`
+fn zeroize_case_with<T: Zeroize + Clone + PartialEq + Debug, N: ArrayLength>(prior: impl Fn(u64) -> T, zeroed_of: impl Fn(&T) -> T, seed: u64) -> Result<(), String> {
     let n = N::USIZE;
     let mut x = seed | 1;
     let mut arr: GenericArray<T, N> = GenericArray::from_iter((0..n).map(|_| {
@@ -120,7 +154,17 @@ fn zeroize_case<T: Zeroize + Clone + PartialEq + Debug, N: ArrayLength>(prior: i
         x ^= x << 17;
         prior(x)
     }));
+    let want: Vec<T> = arr.iter().map(&zeroed_of).collect();
     arr.zeroize();
+    for (i, (e, w)) in arr.iter().zip(&want).enumerate() {
+        if e != w {
+            return Err(format!("after zeroize() element {i} of {n} is {:?}, zeroizing that element alone gives {:?}", e, w));
+        }
+    }
+    let zeroed = match want.first() {
+        Some(w) if want.iter().all(|v| v == w) => w.clone(),
+        _ => return Ok(()),
+    };
     // read back through several paths, not only the slice view the implementation uses
     for (i, e) in arr.iter().enumerate() {
         if *e != zeroed {
@@ -203,6 +247,19 @@ where
         (Op::Zeroize, Kind::Arr24) => zeroize_case::<[u64; 3], N>(|x| [x | 1, x.rotate_left(17) | 1, x.rotate_left(31) | 1], [0; 3], s),
         (Op::Zeroize, Kind::U128) => zeroize_case::<u128, N>(|x| ((x as u128) << 64) | (x.rotate_left(9) as u128) | 1 | (1 << 100), 0, s),
         (Op::Zeroize, Kind::U16) => zeroize_case::<u16, N>(|x| (x >> 8) as u16 | 0x101, 0, s),
+        (Op::Zeroize, Kind::Keep) => {
+            let before = ZEROIZE_CALLS.with(|c| c.get());
+            zeroize_case_with::<Keep, N>(|x| Keep { id: (x >> 40) as u32, secret: (x >> 8) as u32 | 1 }, |k| Keep { id: k.id, secret: 0 }, s)?;
+            let calls = ZEROIZE_CALLS.with(|c| c.get()) - before;
+            if calls != N::USIZE as u64 {
+                return Err(format!("zeroize() of {} elements called the element's zeroize {} times", N::USIZE, calls));
+            }
+            Ok(())
+        }
+        (Op::Zeroize, Kind::OptBool) => zeroize_case::<Option<bool>, N>(|x| Some(x & 256 != 0), None, s),
+        (Op::Zeroize, Kind::NonZeroU8) => zeroize_case::<core::num::NonZeroU8, N>(|x| core::num::NonZeroU8::new(((x >> 8) as u8) | 2).unwrap(), core::num::NonZeroU8::new(1).unwrap(), s),
+        (Op::Zeroize, Kind::Marker) => zeroize_case::<Marker, N>(|x| Marker((x >> 8) as u8 & 0x7f), Marker(0xA5), s),
+        (Op::ConstDefault, Kind::Keep | Kind::OptBool | Kind::NonZeroU8 | Kind::Marker) => Ok(()),
         (Op::ConstDefault, Kind::Wide) => const_default_case::<Wide, N>(Some(Wide::default())),
         (Op::ConstDefault, Kind::NestedWide) => const_default_case::<GenericArray<u64, U2>, N>(Some(Default::default())),
         (Op::ConstDefault, Kind::Arr24) => const_default_case::<[u64; 3], N>(Some([0; 3])),
@@ -236,14 +293,14 @@ pub fn main() {
     let mut g = vec![];
     let mut x = args.seed.wrapping_mul(0x9E37_79B9_7F4A_7C15) | 1;
     for &n in LENS {
-        for kind in [Kind::U8, Kind::U64, Kind::Arr3, Kind::Nested, Kind::P, Kind::Sentinel, Kind::NonZero, Kind::Wide, Kind::NestedWide, Kind::Arr24, Kind::U128, Kind::U16] {
+        for kind in [Kind::U8, Kind::U64, Kind::Arr3, Kind::Nested, Kind::P, Kind::Sentinel, Kind::NonZero, Kind::Wide, Kind::NestedWide, Kind::Arr24, Kind::U128, Kind::U16, Kind::Keep, Kind::OptBool, Kind::NonZeroU8, Kind::Marker] {
             for _ in 0..(if n > 1024 { 2 } else { draws }) {
                 x ^= x << 13;
                 x ^= x >> 7;
                 x ^= x << 17;
                 g.push(Case { n, kind, op: Op::Zeroize, seed: x });
             }
-            if kind != Kind::NonZero {
+            if !matches!(kind, Kind::NonZero | Kind::Keep | Kind::OptBool | Kind::NonZeroU8 | Kind::Marker) {
                 g.push(Case { n, kind, op: Op::ConstDefault, seed: 0 });
             }
         }
@@ -262,8 +319,8 @@ pub fn main() {
         Report {
             prop: PROP,
             level: "exploration",
-            rule: "run-time half: case = (every N in 0..=64 and 100,127,128,255,256,1000,1023,1024,2047,2048,3000,3500,4095,4096,4097,5000,6000,8192,10000,12000 - each a distinct storage shape -, element kind u8 / u64 / [u8;3] / nested GenericArray<u8,U3> / P{a:u8,b:u16} with DEFAULT {0xAB,0xCDEF} / a type whose zeroized value is a non-zero sentinel / NonZeroU32 (zeroizes to 1) / a 16-byte struct of two u64 with a per-field distinguishable DEFAULT / nested GenericArray<u64,U2> / [u64;3] / u128 / u16, operation, seeded non-zero prior contents). \
-                   Oracle: after zeroize() every one of the N elements equals the element type's zeroized value, read through iteration, indexing and by-value iteration; const_default() and DEFAULT have length N, every element equals T::DEFAULT, and equal Default::default() where both exist. \
+            rule: "run-time half: case = (every N in 0..=64 and 100,127,128,255,256,1000,1023,1024,2047,2048,3000,3500,4095,4096,4097,5000,6000,8192,10000,12000 - each a distinct storage shape -, element kind u8 / u64 / [u8;3] / nested GenericArray<u8,U3> / P{a:u8,b:u16} with DEFAULT {0xAB,0xCDEF} / a type whose zeroized value is a non-zero sentinel / NonZeroU32 (zeroizes to 1) / a 16-byte struct of two u64 with a per-field distinguishable DEFAULT / nested GenericArray<u64,U2> / [u64;3] / u128 / u16 / a struct whose zeroize keeps an id field and counts its calls / one-byte types whose zeroized byte is not 0x00 (Option<bool>, NonZeroU8, a marker newtype), operation, seeded non-zero prior contents). \
+                   Oracle: after zeroize() every one of the N elements equals what zeroizing that element alone gives (and the element's zeroize ran exactly N times where it is counted), read through iteration, indexing and by-value iteration; const_default() and DEFAULT have length N, every element equals T::DEFAULT, and equal Default::default() where both exist. \
                    non-trivial = N >= 2 and an element kind other than u8; distinct = distinct case tuples",
             exhaustive: false,
             assumptions: vec!["an odd storage node using one child twice is indistinguishable by value (harmless by construction)".into()],
